@@ -431,7 +431,9 @@ def run_shift(c):
 def run_coeffop(c):
     for (D, P) in DPS[1:]:
         x = UTPM(vals((D, P, 2, 3), 6))
-        for sl, shp in [((slice(0, 1),), (1, P, 6)), ((slice(1, D), slice(0, 1)), (D - 1, 1, 3, 2)), ((slice(None), slice(None), 0), (D, P, 3))]:
+        for sl, shp in [((slice(0, 1),), (1, P, 6)), ((slice(1, D), slice(0, 1)), (D - 1, 1, 3, 2)), ((slice(None), slice(None), 0), (D, P, 3)),
+                        ((slice(None), -1), (D, 1, 2, 3)), ((-1,), (1, P, 2, 3)), ((slice(None), slice(None), -1, slice(None)), (D, P, 3)),
+                        ((slice(None), slice(None), slice(None), -2), (D, P, 2)), ((slice(None), -1, -1), (D, 1, 3))]:
             c.ev(True)
             try:
                 y = x.coeff_op(sl, shp)
@@ -439,6 +441,8 @@ def run_coeffop(c):
                     c.fail('coeff_op', 'value', {'D': D, 'P': P})
                 # its pullback is the transpose in the library's pairing of adjoint and direction coefficients,
                 # sum_c <xbar_(D-1-c), x'_c> = sum_k <ybar_(Dy-1-k), coeff_op(x')_k>, for a fresh x' and seed
+                if not all(isinstance(e, slice) for e in sl):
+                    continue            # the docstring asks for a tuple of slices; integer entries are checked in forward mode only
                 xp = UTPM(vals((D, P, 2, 3), 11))
                 yp = xp.coeff_op(sl, shp)
                 ybar = UTPM(vals(yp.data.shape, 13))
